@@ -196,6 +196,9 @@ class StmtMixin:
                 return
             payload = self.deref(base, st)
             if isinstance(base, VRef) and isinstance(payload, VSeq):
+                if base.oid in getattr(st, "owned", ()):
+                    self.oblige(st, "frame:no-write-to-dataset-owned-list", "frame", z3.BoolVal(False), target,
+                                note="in-place write into a list obtained from the wrapped dataset (the dataset may hand out its own list)")
                 j = self.norm_index(payload, self.deref(idx, st), st, target, "store")
                 old = payload
                 st.heap[base.oid] = VSeq(old.len, lambda i, old=old, j=j, v=v: ite(i == j, v, old.elem(i)), old.etype)
